@@ -40,6 +40,13 @@ func (g *gen) genQueries(df *dataFile, n int, withClient bool) []*query {
 			add("x." + base)
 			add("y.x." + base)
 			add("a+b." + base)
+			// a label that is not wild-safe anywhere in the part of the name below the closest
+			// existing name (the v2 search jumps several labels at once)
+			add("x.a+b." + base)
+			add("x.a!b.y." + base)
+			add("a+b.x." + base)
+			add("x.y.a@b.z." + base)
+			add("x.*." + base)
 			if i := strings.Index(base, "."); i > 0 {
 				add(base[i+1:])
 			}
@@ -185,7 +192,9 @@ func dfltRun(f []string) (string, string) {
 	return strings.Join(out, ","), "-"
 }
 
-func serveRun(line string) (string, string) {
+func serveRun(line string) (string, string) { return serveRunCache(line, dnsserver.CacheConfig{}) }
+
+func serveRunCache(line string, cache dnsserver.CacheConfig) (string, string) {
 	f := strings.Fields(line)
 	if f[0] == "dflt" && len(f) == 2 {
 		return dfltRun(f)
@@ -201,7 +210,7 @@ func serveRun(line string) (string, string) {
 	for _, t := range strings.Split(f[2], ";") {
 		qs = append(qs, parseQuery(t))
 	}
-	handlers, errs, dir := compileAll(lines, &stats.DummyStats{}, &dnsserver.DummyLogger{}, dnsserver.CacheConfig{}, backendNames)
+	handlers, errs, dir := compileAll(lines, &stats.DummyStats{}, &dnsserver.DummyLogger{}, cache, backendNames)
 	defer closeAll(handlers, dir)
 	res := map[string][]string{}
 	var out []string
